@@ -122,6 +122,15 @@ def _run_stream(ctx, fn, cases):
 
 
 # ---------------------------------------------------------------- computechi2
+def _chi2_tol(chi, b, sq, cond=1e3):
+    """how far a correctly rounded sum of squared residuals may be from the exact chi-square: relative to chi-square itself, plus
+    the residual error a backward-stable solve leaves (eps * cond * |b| per point), NOT relative to |b|^2 - a chi-square that
+    is wrong by its own size at high signal-to-noise is wrong"""
+    bn = float(np.sqrt(np.sum((b * sq) ** 2)))
+    e = 1e-14 * max(cond, 10.0) * bn
+    return TOL * max(chi, 0.0) + 2.0 * e * math.sqrt(max(chi, 0.0)) + e * e + 1e-300
+
+
 def _gen_chi2(g):
     rs = np.random.RandomState(g['nseed'])
     n, m = g['n'], g['m']
@@ -199,7 +208,7 @@ def _chi2_case(ctx, c):
     for k in ('acoeff', 'yfit', 'covar', 'var'):
         if not _near(impl[k], mdl[k], TOL):
             ctx.disagree('chi2:' + k, c, _lst(impl[k]), _lst(mdl[k]))
-    if abs(impl['chi2'] - mdl['chi2']) > TOL * chis:
+    if abs(impl['chi2'] - mdl['chi2']) > _chi2_tol(max(mdl['chi2'], impl['chi2']), b, sq):
         ctx.disagree('chi2:chi2', c, impl['chi2'], mdl['chi2'])
     if impl['dof'] != mdl['dof']:
         ctx.disagree('chi2:dof', c, impl['dof'], mdl['dof'])
@@ -211,8 +220,8 @@ def _chi2_case(ctx, c):
         ctx.violate('chi2:covar', 'covar is not the inverse of A^T W A', full)
     if not _near(impl['var'], np.diag(inve), TOL) or not np.array_equal(impl['var'], np.diag(impl['covar'])):
         ctx.violate('chi2:var', 'var is not the diagonal of the covariance', full)
-    if abs(impl['chi2'] - chie) > TOL * chis:
-        ctx.violate('chi2:chi2', 'chi2 %r differs from the exact minimum %r' % (impl['chi2'], chie), full)
+    if abs(impl['chi2'] - chie) > _chi2_tol(chie, b, sq):
+        ctx.violate('chi2:chi2', 'chi2 %r differs from the exact minimum %r (tolerance %.3g)' % (impl['chi2'], chie, _chi2_tol(chie, b, sq)), full)
     if not _near(impl['yfit'], A @ xe, TOL):
         ctx.violate('chi2:yfit', 'yfit differs from A x', full)
     if impl['dof'] != int((sq > 0).sum()) - m:
@@ -312,7 +321,7 @@ def _chi2(ctx, cases=None):
             cases.append({'stream': 'chi2', 'gen': {'nseed': ctx.rng.getrandbits(32), 'n': n, 'm': m,
                                                    'kind': ctx.rng.choice(['random', 'random', 'poly']) if m <= 4 else 'random',
                                                    'pzero': ctx.rng.choice([0.0, 0.1, 0.3, 0.5]),
-                                                   'signal': ctx.rng.choice([0.0, 1.0, 10.0])}})
+                                                   'signal': ctx.rng.choice([0.0, 1.0, 10.0, 1e3, 1e6, 1e8])}})
     _run_stream(ctx, _chi2_case, cases)
 
 
@@ -516,7 +525,10 @@ def _gen_spectra(g):
             if np.linalg.cond((a.T * w[:, j]) @ a) > climit:
                 ok = False
         if ok:
-            return s, w, a, gg
+            # spectra in physical units: fluxes F times larger carry inverse variances F^2 times smaller (F a power of two:
+            # every operation of the algorithm scales exactly, the optimum is the same problem)
+            F = float(g.get('fscale', 1.0))
+            return s * F, w / (F * F), a * F, gg
     raise RuntimeError('generator: no well-conditioned HMF state')
 
 
@@ -677,6 +689,8 @@ def _hmf_step(ctx, cases=None):
                 'nseed': ctx.rng.getrandbits(32), 'K': K, 'N': ctx.rng.randrange(3 * K + 2, 24), 'M': ctx.rng.randrange(3 * K + 3, 28),
                 'noise': ctx.rng.choice([0.02, 0.1]), 'pmask': ctx.rng.choice([0.0, 0.1, 0.2]), 'nonneg': nn,
                 'eps': ctx.rng.choice([None, None, 0.0, 0.5, 5.0, 50.0])}})
+            if cases[-1]['gen']['eps'] in (None, 0.0) and ctx.rng.random() < 0.4:
+                cases[-1]['gen']['fscale'] = 2.0 ** ctx.rng.choice([-20, 10, 20, 30])
     _run_stream(ctx, _hmf_step_case, cases)
 
 
@@ -857,6 +871,8 @@ def _hmf_solve(ctx, cases=None):
                 'eps': ctx.rng.choice([None, None, 0.0, 1.0, 50.0]), 'n_iter': ctx.rng.choice([1, 2, 3, 5]),
                 'zcols': zcols,
                 'seed': ctx.rng.choice([0, 0, 1, ctx.rng.randrange(0, 10000), ctx.rng.randrange(0, 10000)])}})
+            if cases[-1]['gen']['eps'] in (None, 0.0) and ctx.rng.random() < 0.3:
+                cases[-1]['gen']['fscale'] = 2.0 ** ctx.rng.choice([10, 20, 30])
     _run_stream(ctx, _hmf_solve_case, cases)
 
 
